@@ -473,7 +473,11 @@ func (db *BoltDB) GetKeysetCounter(keysetId string) uint32 {
 				if err != nil {
 					return err
 				}
-				counter = keyset.Counter
+				// the same keyset can be stored under several URLs of one mint:
+				// the counter reached is the largest of them
+				if keyset.Counter > counter {
+					counter = keyset.Counter
+				}
 				keysetFound = true
 				return nil
 			}
